@@ -17,6 +17,7 @@ import FpgoVerif.Model.C10Core
                      the harness are active on the goroutine and no handler is set)
       z[@q]       Subscribe a zero-value Subscription (OnNext = nil): registered, receives nothing
       u[@q]:<id>  Unsubscribe      p[@q]:<v>  Publish      c[@q]  number of subscriptions
+      r:g / r:i   a new independent root publisher (PublisherNewGenerics / Publisher.New(), the interface{} twin) â†’ next index
       m[@q]:<f>   Map(f) (a x+1, d 2x, z 0, i x, g -x) â†’ next publisher index      h[@q] / hb[@q]  SubscribeOn(new handler with an unbuffered / buffered channel)
       go<t>[@q]:<v>  goroutine t starts Publish(v) and parks after the snapshot
       adv<t>         goroutine t passes one park point and runs to the next `beforeDelivery`      fin<t>  runs to the end
@@ -393,6 +394,10 @@ def doOp (guided : Bool) (impl : String) (w : World Ïƒ) (tok : String) : World Ï
     (w, showEvs w.ev)
   else if name = "c" then (w, s!"n={B.count s}")
   else if name = "h" âˆ¨ name = "hb" then (setPub w q (B.setSubOn s 0 true), "h")
+  else if name = "r" then
+    -- a new, independent root publisher (both constructors of the library behave alike)
+    let q2 := w.pubs.length
+    ({ w with pubs := w.pubs ++ [B.init], infos := w.infos ++ [[]] }, s!"r{q2}")
   else if name = "m" then
     let q2 := w.pubs.length
     let f := arg.front
